@@ -57,6 +57,24 @@ func vMustParse(def string) *SR {
 	return sr
 }
 
+// vHistoryLight: the same input twice on one transformer, and once on a
+// freshly built one (no interleaved calls with other inputs).
+func vHistoryLight(pair [2]int) {
+	a, b := vMustParse(vDefs[pair[0]]), vMustParse(vDefs[pair[1]])
+	t, err := a.NewTransform(b)
+	vAssert(err == nil, "newtransform-succeeds")
+	x, y := vFloat64(), vFloat64()
+	first := vCall(t, x, y)
+	vAssert(!first.pan, "transformer-does-not-panic")
+	second := vCall(t, x, y)
+	vAssert(vSameRes(first, second), "second-call-same-result")
+	a2, b2 := vMustParse(vDefs[pair[0]]), vMustParse(vDefs[pair[1]])
+	t2, err := a2.NewTransform(b2)
+	vAssert(err == nil, "fresh-newtransform-succeeds")
+	fresh := vCall(t2, x, y)
+	vAssert(vSameRes(first, fresh), "same-as-freshly-built-transformer")
+}
+
 func vHistory(pair [2]int) {
 	a, b := vMustParse(vDefs[pair[0]]), vMustParse(vDefs[pair[1]])
 	t, err := a.NewTransform(b)
@@ -84,11 +102,11 @@ func vHistory(pair [2]int) {
 func VH_C10_history_00_longlat_merc() { vHistory(vPairs[0]); vReach("end") }
 func VH_C10_history_01_merc_longlat() { vHistory(vPairs[1]); vReach("end") }
 func VH_C10_history_02_utm_utm() { vHistory(vPairs[2]); vReach("end") }
-func VH_C10_history_03_lcc_longlat() { vHistory(vPairs[3]); vReach("end") }
-func VH_C10_history_04_longlat_lcc() { vHistory(vPairs[4]); vReach("end") }
-func VH_C10_history_05_tmerc7_utm3() { vHistory(vPairs[5]); vReach("end") }
-func VH_C10_history_06_utm3_tmerc7() { vHistory(vPairs[6]); vReach("end") }
-func VH_C10_history_07_longlat7_wgs84() { vHistory(vPairs[7]); vReach("end") }
-func VH_C10_history_08_tmerc7_wgs84() { vHistory(vPairs[8]); vReach("end") }
+func VH_C10_history_03_lcc_longlat() { vHistoryLight(vPairs[3]); vReach("end") }
+func VH_C10_history_04_longlat_lcc() { vHistoryLight(vPairs[4]); vReach("end") }
+func VH_C10_history_05_tmerc7_utm3() { vHistoryLight(vPairs[5]); vReach("end") }
+func VH_C10_history_06_utm3_tmerc7() { vHistoryLight(vPairs[6]); vReach("end") }
+func VH_C10_history_07_longlat7_wgs84() { vHistoryLight(vPairs[7]); vReach("end") }
+func VH_C10_history_08_tmerc7_wgs84() { vHistoryLight(vPairs[8]); vReach("end") }
 func VH_C10_history_09_axisneu_merc() { vHistory(vPairs[9]); vReach("end") }
-func VH_C10_history_10_longlat_aea_usft() { vHistory(vPairs[10]); vReach("end") }
+func VH_C10_history_10_longlat_aea_usft() { vHistoryLight(vPairs[10]); vReach("end") }
